@@ -14,6 +14,8 @@ def key(name):
 def main():
     rows = ["| seed | property | change | needs to manifest | reported by |", "|---|---|---|---|---|"]
     for d in sorted(os.listdir(os.path.join(ROOT, "seeded")), key=key):
+        if not os.path.exists(os.path.join(ROOT, "seeded", d, "meta.json")):
+            continue  # confirmed but not yet run against the checks
         m = json.load(open(os.path.join(ROOT, "seeded", d, "meta.json")))
         by = "; ".join(m.get("caught_by") or []) or "**not caught**"
         if m.get("missed"):
